@@ -29,7 +29,16 @@ fn main() {
                     _ => Tier::Quick,
                 },
             };
-            check(prop, tier)
+            // a panic that escapes a check comes from subject code called outside a guard (the
+            // lexer on a fixture, say): the check cannot give a verdict - machinery, not exit 101
+            match std::panic::catch_unwind(|| check(prop, tier)) {
+                Ok(c) => c,
+                Err(e) => {
+                    let msg = e.downcast_ref::<String>().cloned().or_else(|| e.downcast_ref::<&str>().map(|s| s.to_string())).unwrap_or_default();
+                    eprintln!("MACHINERY: check {prop} panicked outside its guards: {msg}");
+                    2
+                }
+            }
         }
         "replay" => replay(args.get(2).map(|s| s.as_str()).unwrap_or_else(|| usage())),
         "worker" => worker(&args[2..]),
